@@ -46,6 +46,7 @@ class Contract:
         self.tags = kw.pop("tags", ())
         self.bitvec = kw.pop("bitvec", None)
         self.merge_ifs = kw.pop("merge_ifs", False)
+        self.nl_abstract = kw.pop("nl_abstract", False)
         self.replay = kw.pop("replay", None)
         self.external_overrides = kw.pop("externals", {})
         self.findings = kw.pop("findings", {})      # {finding id: pre-state clause delimiting the known failing region}
